@@ -103,7 +103,15 @@ type c02Case struct {
 	// that serve requests first, requests from this origin are among them
 	Route      int    `json:"route,omitempty"`
 	WarmOrigin string `json:"warm_origin,omitempty"`
+	// HistN > 0: before the intent, the same handler runs the first HistN intents of the alphabet of origin choice
+	// HistOC (HistRev: counted from the end, in reverse order), as the exploration does
+	HistOC  int  `json:"history_origin_choice,omitempty"`
+	HistN   int  `json:"history_length,omitempty"`
+	HistRev bool `json:"history_reversed,omitempty"`
 }
+
+// c02IntentsFor is set by checkC02 before anything else (the judge needs the alphabet to replay a history).
+var c02IntentsFor func(oc int) []ref.Intent
 
 func c02Warm(o string) []vlib.Req {
 	if o == "" {
@@ -211,10 +219,21 @@ func c02Judge(k c02Case) *vlib.Failure {
 		return vlib.Failf("configuration accepted by NewMiddleware but not through route %q: %v", routeNames[k.Route], err)
 	}
 	h := bm.wrap(http.HandlerFunc(func(http.ResponseWriter, *http.Request) {}))
+	if k.HistN > 0 {
+		ins := c02IntentsFor(k.HistOC)
+		rec := vlib.NewRec()
+		for j := 0; j < k.HistN && j < len(ins); j++ {
+			in := ins[j]
+			if k.HistRev {
+				in = ins[len(ins)-1-j]
+			}
+			c02BrowseRec(h, in, 0, rec)
+		}
+	}
 	got, why := c02Browse(h, k.Intent, k.Perturb)
 	want := ref.Permits(k.Cfg.Policy(), k.Intent)
 	if got != want {
-		return vlib.Failf("browser verdict=%t (%s) but the configuration permits the request: %t; config=%s intent=%+v debug=%t perturbation=%d route=%q warm origin=%q", got, why, want, k.Cfg.GoLiteral(), k.Intent, k.Debug, k.Perturb, routeNames[k.Route], k.WarmOrigin)
+		return vlib.Failf("browser verdict=%t (%s) but the configuration permits the request: %t; config=%s intent=%+v debug=%t perturbation=%d route=%q warm origin=%q intents served before on the same handler=%d (reversed: %t)", got, why, want, k.Cfg.GoLiteral(), k.Intent, k.Debug, k.Perturb, routeNames[k.Route], k.WarmOrigin, k.HistN, k.HistRev)
 	}
 	return nil
 }
@@ -376,10 +395,11 @@ func c02Alphabet(c *vlib.Ctx) (cfgs []CfgLit, intentsFor func(oc int) []ref.Inte
 func checkC02(c *vlib.Ctx) (string, string) {
 	ck := &Checker[c02Case]{C: c, Judge: c02Judge, Test: c02Test}
 	rule := "full product configuration x browser intent x debug x tolerated ACRH perturbation over closed alphabets; each cell runs the real middleware against an executable transcription of Fetch's CORS-preflight fetch / CORS check / PNA check and compares the verdict with ref.Permits; non-trivial = distinct (configuration, intent) cell whose verdict is success"
+	cfgs, intentsFor, ocOf := c02Alphabet(c)
+	c02IntentsFor = intentsFor
 	if ck.Replay() {
 		return levelMC, rule
 	}
-	cfgs, intentsFor, ocOf := c02Alphabet(c)
 	perturbs := vlib.Pick(c, []int{0, 4}, []int{0, 1, 2, 3, 4})
 	var accepted, rejected int64
 	c.ParRange(int64(len(cfgs)), 1, "C02 configurations", func(i int64) {
@@ -407,7 +427,7 @@ func checkC02(c *vlib.Ctx) (string, string) {
 		ins := intentsFor(ocOf[i])
 		rec := vlib.NewRec()
 		var evals, nontrivial int64
-		for _, in := range ins {
+		for ii, in := range ins {
 			want := ref.Permits(pol, in)
 			if want {
 				nontrivial++
@@ -436,9 +456,33 @@ func checkC02(c *vlib.Ctx) (string, string) {
 						if f := vlib.Guard(func() *vlib.Failure { return c02Judge(k) }); f != nil {
 							ck.Report(k, f)
 						} else {
-							vlib.HarnessError("fast path and judge disagree on %+v", k)
+							// not reproducible on a fresh handler: then it is what was served before that matters
+							kh := k
+							kh.HistOC, kh.HistN = ocOf[i], ii
+							if f := vlib.Guard(func() *vlib.Failure { return c02Judge(kh) }); f != nil {
+								ck.Report(kh, f)
+							} else {
+								vlib.HarnessError("fast path and judge disagree on %+v (also after replaying the %d earlier intents)", k, ii)
+							}
 						}
 					}
+				}
+			}
+		}
+		// the same intents in reverse order on a second handler (debug off, no perturbation): what an earlier exchange
+		// leaves behind must not decide a later one
+		if bm, err := buildViaH(route, lit, false); err == nil {
+			h := bm.wrap(http.HandlerFunc(func(http.ResponseWriter, *http.Request) {}))
+			for j := len(ins) - 1; j >= 0; j-- {
+				evals++
+				if got, _ := c02BrowseRec(h, ins[j], 0, rec); got != ref.Permits(pol, ins[j]) {
+					k := c02Case{Cfg: lit, Intent: ins[j], Route: route, HistOC: ocOf[i], HistN: len(ins) - 1 - j, HistRev: true}
+					if f := vlib.Guard(func() *vlib.Failure { return c02Judge(k) }); f != nil {
+						ck.Report(k, f)
+					} else {
+						vlib.HarnessError("reverse pass and judge disagree on %+v", k)
+					}
+					break
 				}
 			}
 		}
